@@ -162,6 +162,24 @@ def run_case(case, rec):
                                "gridresp" if cfg["gr"] else "fixedgrid")
     rec.check("sum_of_forces[%s]" % ("grid_response" if cfg["gr"] else "fixed_grid_level%d" % cfg["level"]), float(np.max(np.abs(F.sum(axis=0)))), tol if not cfg["gr"] else 1e-8,
               mechanism="gradients:sum-of-forces[%s]" % mechtag, detail={"sumF": F.sum(axis=0).tolist()})
+    # blocking independence of the XC force matrices: the same call with a memory budget that forces many small grid
+    # blocks (the SCF-size grids of this check fit into one block otherwise) - added after a seeded change that reused
+    # block-local AO buffers across blocks in the RKS NLDF force driver went unnoticed
+    from ciderpress.pyscf import rks_grad, uks_grad
+    gmod = rks_grad if cfg["spin"] == "rks" else uks_grad
+    gfun = gmod.get_vxc_full_response if cfg["gr"] else gmod.get_vxc
+    try:
+        e_big, v_big = gfun(ni, ks.mol, ks.grids, ks.xc, dm, max_memory=2000)
+        e_small, v_small = gfun(ni, ks.mol, ks.grids, ks.xc, dm, max_memory=1)
+        vsc = max(float(np.max(np.abs(v_big))), 1e-300)
+        rec.check("force_matrix_block_independence", float(np.max(np.abs(np.asarray(v_big) - np.asarray(v_small)))) / vsc, 1e-9,
+                  mechanism="gradients:blocking-dependence[%s]" % mechtag, detail={"ngrids": int(ks.grids.weights.size)})
+        if e_big is not None and e_small is not None:
+            esc = max(float(np.max(np.abs(e_big))), 1e-3 * vsc)
+            rec.check("grid_response_block_independence", float(np.max(np.abs(np.asarray(e_big) - np.asarray(e_small)))) / esc, 1e-9,
+                      mechanism="gradients:blocking-dependence[excsum,%s]" % mechtag)
+    except NotImplementedError:
+        pass
     coords = mol.atom_coords()
     comps = [(a, x) for a in range(mol.natm) for x in range(3)]
     order = rng.permutation(len(comps))
